@@ -72,6 +72,17 @@ func rebalanceOpts(tag string) []interface{} {
 		return []interface{}{hdf5.WithLazyRebalancing(), hdf5.WithIncrementalRebalancing(hdf5.IncrementalBudget(time.Millisecond), hdf5.IncrementalInterval(time.Millisecond))}
 	case "smart":
 		return []interface{}{hdf5.WithSmartRebalancing(hdf5.SmartAutoDetect(true), hdf5.SmartAutoSwitch(true))}
+	// extreme but legal option values
+	case "lazy0": // threshold 0: every underflow triggers the batch at once; no delay; batch of 1
+		return []interface{}{hdf5.WithLazyRebalancing(hdf5.LazyThreshold(0), hdf5.LazyMaxDelay(0), hdf5.LazyBatchSize(1))}
+	case "lazybig": // never by threshold, never by delay, everything in one batch
+		return []interface{}{hdf5.WithLazyRebalancing(hdf5.LazyThreshold(1.0), hdf5.LazyMaxDelay(1000*time.Hour), hdf5.LazyBatchSize(1<<30))}
+	case "incr0": // a budget of zero, the shortest interval, with a progress callback
+		return []interface{}{hdf5.WithLazyRebalancing(), hdf5.WithIncrementalRebalancing(hdf5.IncrementalBudget(0), hdf5.IncrementalInterval(time.Nanosecond),
+			hdf5.IncrementalProgressCallback(func(verifapi.RebalancingProgress) {}))}
+	case "smartall": // every mode allowed, no minimum size, a mode-change callback
+		return []interface{}{hdf5.WithSmartRebalancing(hdf5.SmartAutoDetect(true), hdf5.SmartAutoSwitch(true), hdf5.SmartMinFileSize(0),
+			hdf5.SmartAllowedModes("none", "lazy", "incremental"), hdf5.SmartOnModeChange(func(hdf5.ModeDecision) {}))}
 	case "smartoff":
 		return []interface{}{hdf5.WithSmartRebalancing(hdf5.SmartAutoDetect(false), hdf5.SmartAutoSwitch(false), hdf5.SmartAllowedModes("none"))}
 	}
